@@ -26,7 +26,7 @@ func genReopen(r *Rand, d *dFile) *dFile {
 		}
 		na := dApp{Parts: a.Parts, Attrs: dAttrs{Tags: []string{}, KV: []dKV{}}, Mixins: [][]string{}, Collector: []dTemplate{}, Subs: []dSub{}}
 		// re-opened tuple types get new fields; new types get new names
-		for _, t := range a.Types {
+		for ti, t := range a.Types {
 			if (t.Kind == "type" || t.Kind == "table") && r.Chance(1, 2) {
 				nt := dTypeDecl{Name: t.Name, Kind: t.Kind, Attrs: dAttrs{Tags: []string{}, KV: []dKV{}}, Items: []dEnumItem{}, Members: []dType{}}
 				for k := 0; k < 1+r.Intn(2); k++ {
@@ -41,6 +41,20 @@ func genReopen(r *Rand, d *dFile) *dFile {
 						}
 					}
 					nt.Fields = append(nt.Fields, dField{Name: f0.Name, Ty: dType{Wrap: Pick(r, []string{"set", "seq"}), Prim: "string", RefApp: []string{}, RefPath: []string{}}, Attrs: dAttrs{Tags: []string{}, KV: []dKV{}}})
+				}
+				// an array-valued annotation declared again, both times as an annotation line: two declarations,
+				// two locations, in declaration order
+				for _, kv := range t.Attrs.KV {
+					if kv.V.Arr && len(kv.V.A) > 0 && r.Bool() {
+						nt.Attrs.KV = append(nt.Attrs.KV, dKV{K: kv.K, V: dAttrVal{Arr: true, A: []dAttrVal{{S: "again"}, {S: "and again"}}}})
+						nt.Attrs.ForceAnno = true
+						for ai := range d.Apps {
+							if appKey(d.Apps[ai].Parts) == appKey(a.Parts) {
+								d.Apps[ai].Types[ti].Attrs.ForceAnno = true
+							}
+						}
+						break
+					}
 				}
 				na.Types = append(na.Types, nt)
 			}
@@ -152,6 +166,11 @@ func runC08(res *Result, tier string, rnd *Rand, replay string) {
 			}
 		}
 		files := map[string]string{}
+		var d2 *dFile
+		if two {
+			// decided before the root file is written: a re-declaration may ask for the form of the first declaration
+			d2 = genReopen(r.Fork(), d)
+		}
 		files["main.sysl"] = renderDFileMarked(d, r.Fork(), "main.sysl", &marks, base, header)
 		if two {
 			// the root file may end with an application that has no body, and the next file may
@@ -165,7 +184,6 @@ func runC08(res *Result, tier string, rnd *Rand, replay string) {
 				files["emptyonly.sysl"] = "EmptyOnly:\n    ...\n"
 				marks = append(marks, c08Mark{Path: `apps["EmptyOnly"]`, File: "emptyonly.sysl", Line: 0, Col: 0, Tok: "EmptyOnly"})
 			}
-			d2 := genReopen(r.Fork(), d)
 			c08NoLeadingFiller = r.Bool()
 			files["part2.sysl"] = renderDFileMarked(d2, r.Fork(), "part2.sysl", &marks, base, "")
 			c08NoLeadingFiller = false
